@@ -71,8 +71,8 @@ WellFormed(doc, a) ==
          /\ \A i \in 1..Len(a.r) : a.r[i] \in Nat \ {0}
          /\ \A c \in DOMAIN a.c : c \in DOMAIN doc[a.t].cols /\ Len(a.c[c]) = Len(a.r)
     [] a.n = "BulkUpdateRecord" ->
+         \* a repeated row id is applicable (sequential writers leave the last value)
          /\ a.t \in DOMAIN doc
-         /\ NoDups(a.r)
          /\ \A i \in 1..Len(a.r) : a.r[i] \in doc[a.t].rows
          /\ \A c \in DOMAIN a.c : c \in DOMAIN doc[a.t].cols /\ Len(a.c[c]) = Len(a.r)
     [] a.n = "BulkRemoveRecord" ->
